@@ -33,7 +33,8 @@ META = {
             "outcomes with fees, coinbase, versions 0-5, deadline at every position, refused siblings) run through the real "
             "GenerateBlock/GatherTXs, real executor, real dpos.Status in 3 producer + 2 validator processes (GOMAXPROCS 1/16): bytes, roots, receipts "
             "identical, every block accepted, dropped transactions leave no trace (unsaved parts + visible-state dump), governance outcomes replayed by "
-            "the Gov model, bucket order on the real package.",
+            "the Gov model, bucket order on the real package; stateBuffer.export on raw keys sharing 1/8/16/31-byte prefixes: one root over 40 "
+            "repetitions, ascending order, equal to the Coq export model.",
     "note": "Trusted: Coq kernel + vm_compute (no axioms); translator gen/gen_mapranges (go/types, over-approximate static call graph over the listed "
             "packages; calls into pkg/trie, fee, internal/* not followed; C code invisible) and the 12 manually reviewed sites of Determ/Shapes.v:reviewed; "
             "engine harness/engines/determ (real NewChainService nodes, unsigned blocks, consensus = StubConsensus + real dpos.Status.Update); case "
@@ -312,6 +313,50 @@ def run(ctx):
     hist["vpr_buckets_checked"] = nb
     phase["vpr_bucket_order"] = round(time.time() - t0, 1)
 
+    # ---------------------------------------------------------------- (b) stateBuffer.export on the real state/statedb package
+    t0 = time.time()
+    rc, log, expbin = ctx.go_test_binary("state/statedb", [os.path.join(E, "zz_verif_export_engine_test.go")], "export.test", use_overlay=False)
+    if rc != 0:
+        raise RuntimeError("export engine build failed:\n" + log[-3000:])
+    ecs = D.export_cases(ctx.rng, 40 if quick else 1500)
+    ein, eout = os.path.join(ctx.workdir, "export.in"), os.path.join(ctx.workdir, "export.out")
+    with open(ein, "w") as f:
+        for c in ecs:
+            f.write(json.dumps(c) + "\n")
+    rc, log = ctx.run_bin(expbin, ["-test.run", "TestVerifExportEngine"], env={"VERIF_IN": ein, "VERIF_OUT": eout})
+    if rc != 0:
+        raise RuntimeError("export engine failed:\n" + log[-3000:])
+    pairs = []
+    for c, l in zip(ecs, open(eout)):
+        o = json.loads(l)
+        if o.get("fatal"):
+            fails.append(("state DB update fails on keys written in one block: " + o["fatal"][:200], {"keys": c["keys"]}))
+            continue
+        if len(o["roots"]) != 1:
+            fails.append(("the same block written %d times from the same prior state gives %d different state roots (keys sharing a prefix reach the trie in map order)" % (c["rep"], len(o["roots"])),
+                          {"keys": c["keys"], "roots": o["roots"], "orders": o["orders"][:3]}))
+        for order in o["orders"]:
+            if order != sorted(order):
+                fails.append(("stateBuffer.export returns keys that are not in ascending byte order", {"keys": c["keys"], "exported": order}))
+                break
+        pairs.append((c["keys"], o["orders"][0]))
+        evals += c["rep"]
+    export_diff = None
+    if pairs:
+        rc, out = ctx.coq_eval("export_cases", D.export_cases_file(pairs))
+        try:
+            if rc != 0:
+                raise RuntimeError(out[-2000:])
+            badl = G.parse_bad_list(out, "ME", r"(\d+)(?:%nat)?")
+        except RuntimeError as ex:
+            export_diff = ("export model could not be evaluated", str(ex)[-1500:])
+            badl = []
+        if badl:
+            i = int(badl[0])
+            export_diff = ("stateBuffer.export and the model Determ.Export.export differ", {"keys": pairs[i][0], "exported": pairs[i][1]})
+    hist["export_key_sets"] = len(ecs)
+    phase["export"] = round(time.time() - t0, 1)
+
     # ---------------------------------------------------------------- real block executor vs governance model
     t0 = time.time()
     G.reset_names()
@@ -365,6 +410,8 @@ def run(ctx):
             hard |= bool(ctx.finding(key, what, rep))
     for what, rep in fails[:3]:
         hard |= bool(ctx.finding("C02:" + what.split(":")[0].replace(" ", "-")[:60], what, rep))
+    if export_diff and not hard:
+        ctx.violation("correspondence broken: " + export_diff[0], {"correspondence": export_diff[0], "cases": export_diff[1]}, no_input=True)
     if model_diff and not hard:
         ctx.violation("correspondence broken: " + model_diff[0], {"correspondence": model_diff[0], "cases": model_diff[1]}, no_input=True)
     if not pr["ok"] and not hard:
